@@ -255,6 +255,25 @@ def lazy_scale(chk):
                 chk.add(f"{cname}.set_maximum_parameter_b/unset/frame/b-kept-by-later-calls{sfx}", [], z3.BoolVal(b2 is b1 or (T.is_sym(b2) and b2.eq(b1))), kind="frame",
                         func=f"{fq}.set_maximum_parameter_b", meta={"replay": rep})
 
+        # the stored scale is a value of its own: it never IS the caller's argument (a 0-d array handed in may be modified by the caller later)
+        def t_alias(eng_, cname=cname, spec=spec):
+            for e in spec["extra"]:
+                eng_.assume(e)
+            eng_.assume(x > 0)
+            tf = eng_.new_object(eng_.get_class(MOD, cname), rmin, rmax, None)
+            x0d = I.Arr((), lambda: x, "real")
+            before = x0d.fn
+            eng_.call_method(tf, "set_maximum_parameter_b", x0d)
+            stored = tf.fields.get("_b", None)
+            return stored is x0d or (isinstance(stored, I.Arr) and getattr(stored, "base", None) is x0d), x0d.fn is before
+        outs = chk.explore(f"{cname}.set_maximum_parameter_b/zero-dimensional-argument", t_alias, func=f"{fq}.set_maximum_parameter_b")
+        rets = [o for o in outs if o.kind == "return"]
+        chk.add(f"{cname}.set_maximum_parameter_b/zero-dimensional-argument/post/returns", [], z3.BoolVal(bool(rets)), func=f"{fq}.set_maximum_parameter_b", meta={"replay": rep})
+        for oi, o in enumerate(rets):
+            aliased, untouched = o.value
+            chk.add(f"{cname}.set_maximum_parameter_b/escape/stored-scale-is-not-the-callers-array" + ("" if len(rets) == 1 else f"@{oi}"), [],
+                    z3.BoolVal(not aliased and bool(untouched)), kind="escape", func=f"{fq}.set_maximum_parameter_b", meta={"replay": rep})
+
         # the terms for a given b (scalar argument), as in build()
         given_rets, _ = scalar_terms(chk, cname, spec)
         if not given_rets or any(not z3.simplify(T.zr(o.value[m_])).eq(z3.simplify(T.zr(given_rets[0].value[m_]))) for o in given_rets[1:] for m_ in METHODS):
